@@ -414,6 +414,16 @@ def generate(rng, index, tier):
         # one burst: everything back-to-back
         for o in ops:
             o['gap'] = 0.0
+    hold = False
+    if rng.random() < 0.2:
+        # the application tracks / untracks users meanwhile
+        for _ in range(rng.randint(1, 3)):
+            ops.insert(rng.randint(0, len(ops)), {'k': rng.choice(('track', 'track', 'untrack')), 'user': rng.choice(OTHERS),
+                                                  'gap': rng.choice((0.0, 0.05, 0.4, 1.5))})
+    if rng.random() < 0.12:
+        # the server connection is lost once along the way; the application may keep the user objects it was given
+        ops.insert(rng.randint(1, len(ops)), {'k': 'relogin', 'gap': rng.choice((0.05, 0.4))})
+        hold = rng.random() < 0.7
     blocked = {}
     for u in OTHERS + ('server',):
         f = rng.choice(BLOCK_FLAGS)
@@ -426,6 +436,8 @@ def generate(rng, index, tier):
         'init_room_list': None,
         'ops': ops,
     }
+    if hold:
+        plan['hold_users'] = True
     if rng.random() < 0.3:
         rl = draw_op(rng, 'room_list', ctr)
         plan['init_room_list'] = {k: rl[k] for k in ('public', 'owned', 'member', 'operated')}
@@ -483,6 +495,20 @@ def corpus(tier):
             out.append(dict(base, blocked={'bob': flag} if flag else {},
                             ops=[_directed_op('join_self', val=1), _directed_op(kind, val=2),
                                  _directed_op(kind, user='carol', val=3, gap=0.0)]))
+    # 3b. the application tracks and untracks a user who sits in a joined room; status / stats updates around it
+    for kind in ('user_status', 'user_stats', 'room_chat', 'ticker_added'):
+        out.append(dict(base, ops=[_directed_op('join_self', val=1), {'k': 'track', 'user': 'bob', 'gap': 0.3},
+                                   _directed_op('user_status', val=2, gap=0.5), {'k': 'untrack', 'user': 'bob', 'gap': 0.5},
+                                   _directed_op(kind, val=3, gap=0.5), {'k': 'gc', 'gap': 0.4},
+                                   _directed_op('user_joined', user='carol', val=4, gap=0.2)]))
+    # 3c. the server connection is lost and the client logs in again; the application kept the user objects it was given
+    for hold in (False, True):
+        for kind in ('user_status', 'room_chat', 'ticker_added', 'join_self', 'add_privileged'):
+            out.append(dict(base, hold_users=hold, ops=[
+                _directed_op('join_self', val=1), _directed_op('user_stats', user='alice', val=2),
+                _directed_op('user_stats', user='bob', val=3), _directed_op('user_status', user='bob', val=4),
+                {'k': 'relogin', 'gap': 0.3}, _directed_op(kind, val=5, gap=0.3), {'k': 'gc', 'gap': 0.2},
+                _directed_op('user_status', user='alice', val=6, gap=0.2)]))
     # 4. the composition patterns, one fixed instance each
     g = lambda k, **kw: dict({'k': k, 'gap': 0.05}, **kw)   # noqa: E731
     out.append(dict(base, ops=[g('member_granted', room='r2', user='bob'), g('op_granted', room='r2', user='bob'),
@@ -612,7 +638,11 @@ def _run(world: World, plan):
         }
     server = world.add_server(cfg)
     blocked = {u: BlockingFlag(int(f)) for u, f in sorted((plan.get('blocked') or {}).items())}
-    alice = world.add_client(ME, overrides={'users': {'blocked': blocked}} if blocked else None)
+    overrides = {'users': {'blocked': blocked}} if blocked else {}
+    if any(op['k'] == 'relogin' for op in plan.get('ops', [])):
+        overrides['network'] = {'server': {'reconnect': {'auto': True, 'timeout': 1}}}
+    alice = world.add_client(ME, overrides=overrides or None)
+    held = []                            # User objects the application keeps (plan['hold_users'])
     client = alice.client
     replica = Replica(ME)
     ops = plan.get('ops', [])
@@ -676,6 +706,17 @@ def _run(world: World, plan):
         session = client.session
         if session is not None and not any(session.user is s for s in seen):
             seen.append(session.user)
+        if plan.get('hold_users') and getattr(replica, 'after_reset', False):
+            # the application kept the objects it was given.  In a new session, a name about which nothing has been
+            # announced yet has no statistics: what the library's table shows for it can only stem from the old session
+            for u in list(client.users.users.values()):
+                if any(u is s for s in seen) or u.name in replica.users or u.name in announced_users:
+                    continue
+                stats = (u.avg_speed, u.uploads, u.shared_file_count, u.shared_folder_count)
+                if any(v is not None for v in stats):
+                    bad = [STAT_NAMES[i] for i in range(4) if stats[i] is not None]
+                    world.violate('C19.user.stats', last=kind, who=_who(u.name), decided_by='session_reset',
+                                  about_user=False, stat=bad[0])
         seen.sort(key=lambda u: u.name)
         names = [u.name for u in seen]
         if len(set(names)) != len(names):
@@ -782,6 +823,10 @@ def _run(world: World, plan):
         replica.apply(note)
         check_events(note, events)
         compare(note)
+        if plan.get('hold_users'):
+            for u in list(client.users.users.values()):
+                if not any(u is h for h in held):
+                    held.append(u)
         if state['started'] and state['delivered'] in gc_after:
             gc_after.discard(state['delivered'])
             gc.collect()
@@ -794,7 +839,16 @@ def _run(world: World, plan):
         if hook_error:
             return
         try:
-            if isinstance(event, E.MessageReceivedEvent):
+            if isinstance(event, E.SessionDestroyedEvent):
+                # everything the server said belongs to the session that ended: the fold starts again
+                replica.__init__(ME)
+                replica.after_reset = True
+                pending_events.clear()
+                announced_users.clear()
+                alive.clear()
+                recreated.clear()
+                world.trace('session_destroyed')
+            elif isinstance(event, E.MessageReceivedEvent):
                 if isinstance(event.connection, ServerConnection):
                     on_server_message(event.message)
             elif isinstance(event, EVENT_CLASSES):
@@ -821,6 +875,30 @@ def _run(world: World, plan):
                     world.trace('gc', 'now')
                     compare(None)
                 continue
+            if op['k'] in ('track', 'untrack'):
+                # the application tracks / untracks a user (the server's answer is folded like every announcement)
+                from aioslsk.user.model import TrackingFlag
+                world.net.fired['user_' + op['k']] += 1
+                fn = client.users.track_user if op['k'] == 'track' else client.users.untrack_user
+                c = world.call(alice, f"{op['k']}-{op['user']}", fn, op['user'], TrackingFlag.REQUESTED)
+                await c.task
+                continue
+            if op['k'] == 'relogin':
+                # the server connection is lost, the client logs in again by itself
+                for sess in server.sessions:
+                    if not sess.closed and getattr(sess, 'username', None) == ME:
+                        world.net.fired['server_reset_then_relogin'] += 1
+                        sess.abort()
+                for _ in range(200):
+                    await asyncio.sleep(0.1)
+                    if client.session is None:
+                        break
+                for _ in range(300):
+                    await asyncio.sleep(0.1)
+                    if client.session is not None:
+                        break
+                await asyncio.sleep(1.0)
+                continue
             if notifications >= MAX_NOTIFICATIONS:
                 continue
             notifications += 1
@@ -833,8 +911,10 @@ def _run(world: World, plan):
     world.run(main())
     if hook_error:
         raise hook_error[0]
-    if state['delivered'] != state['sent']:
-        raise RuntimeError(f"harness: {state['sent']} notifications sent, {state['delivered']} delivered")
+    local = any(op['k'] in ('track', 'untrack', 'relogin') for op in ops)
+    if state['delivered'] != state['sent'] and not (local and state['delivered'] > state['sent']):
+        if not any(op['k'] == 'relogin' for op in ops):      # (a notification sent into the dying session is lost)
+            raise RuntimeError(f"harness: {state['sent']} notifications sent, {state['delivered']} delivered")
 
     # probes / coverage
     iters = [it for (_, it, _) in delivered_log]
